@@ -331,6 +331,7 @@ impl Property for C11 {
     }
     fn assumptions(&self) -> Vec<String> {
         vec![
+            "1 in 400 generated cases types a string literal over several lines (blanks next to the line breaks) into `ucg repl` and compares it there with the one-line literal using \\n escapes".into(),
             "lexical grammar of reference/grammar.md and the escape list of reference/types.md are the specification".into(),
             "a boolean/NULL literal glued to a word character is unclaimed and discarded".into(),
             "column may be counted in bytes or in characters".into(),
@@ -404,7 +405,7 @@ impl Property for C11 {
             for _ in 0..=n {
                 let pre = " ".repeat(tape.choice(3));
                 let post = *tape.pick(&["", " ", "  ", "\t"]);
-                lines.push(format!("{}{}{}", pre, tape.pick(&["a", "b c", "é", "", "x=1;", "// no comment"]), post));
+                lines.push(format!("{}{}{}", pre, tape.pick(&["a", "b c", "é", "", "x=1; y", "// no comment"]), post));
             }
             return repl_string_check(&lines);
         }
@@ -556,7 +557,7 @@ fn key_of(s: &str) -> u64 {
 /// blanks next to the line breaks included: it equals the one-line literal with `\n` escapes.
 fn repl_string_check(lines: &[String]) -> Outcome {
     let body = lines.join("\n");
-    let one_line = crate::reflex::quote(&body);
+    let one_line = format!("\"{}\"", body.replace('\\', "\\\\").replace('"', "\\\"").replace('\n', "\\n"));
     let script = format!("let s = \"{}\";\ns == {};\n", body, one_line);
     let mut o = Outcome::pass(format!("[ucg repl]\n{}", script));
     o.key = fnv(script.as_bytes());
